@@ -94,7 +94,9 @@ RunFaults ==
    Fault("panicking function", <<TId("Boom"), TBr("("), TNum("1"), TBr(")")>>, 1, NCall("Boom", <<NInt(1)>>)),
    Fault("nil function", <<TId("NilFn"), TBr("("), TNum("1"), TBr(")")>>, 1, NCall("NilFn", <<NInt(1)>>)),
    Fault("field of a nil pointer", <<TId("P"), TOp("."), TId("N")>>, 3, NProp(NId("P"), "N", FALSE)),
-   Fault("index out of range", <<TId("Xs"), TBr("["), TNum("7"), TBr("]")>>, 2, NIdx(NId("Xs"), NInt(7)))}
+   Fault("index out of range", <<TId("Xs"), TBr("["), TNum("7"), TBr("]")>>, 2, NIdx(NId("Xs"), NInt(7))),
+   \* a name the environment value does not have (compiled without a declared environment type)
+   Fault("name missing at run time", <<TId("Zq")>>, 1, NId("Zq"))}
 (* the environment values under which the run faults fail *)
 FaultEnv == [U8 |-> IntK("uint8", 0), P |-> PtrNil("Obj"), Xs |-> IntArr(<<1, 2, 3>>)]
 
@@ -132,7 +134,7 @@ RunCase(t, p, f) ==
                  /\ LET o == Outcome(t2, EnvOf(a), DefaultBudget, {})      \* and this one fails
                     IN ~o.ok /\ o.c # "outside"}
   IN [kind |-> "run", fault |-> f.name, n |-> n, envs |-> envs,
-      texts |-> <<Text(sp, "min"), Text(sp, "wild"), Text(Wrapped(sp), "wild")>>]
+      texts |-> <<Text(sp, "min"), Text(sp, "wild"), Text(Wrapped(sp), "wild"), Text(Wrapped(sp), "min")>>]
 
 EmitErr ==
   Complete =>
